@@ -1,4 +1,5 @@
 (* Props/C07.v — property C07: @serial scenarios run in isolation. *)
+From CV Require Proofs.ReviewP3.
 From CV Require Import Model.SchedSpec.
 From CV Require Import Model.Base Model.Events Model.Sched Proofs.BaseP Proofs.SchedP Proofs.SchedP2 Proofs.SchedP11.
 
@@ -50,3 +51,22 @@ Example C07_stream_nonvacuous :
   end = (true, 2%nat)
   /\ iso_walk ser [EvScen 1 None 11 None ScStarted; EvScen 1 None 12 None ScStarted] = false.
 Proof. vm_compute. split; reflexivity. Qed.
+
+
+(* ---------- the same in plain words, on the emitted stream (attempts followed by scenario id AND retry counter) ---------- *)
+Theorem C07_serial_attempt_runs_alone :
+  forall ser c ls s tr, exec c ls = Some (s, tr) -> tagged ser ls ->
+    forall pre f r sid rt mid post,
+      tr = pre ++ EvScen f r sid rt ScStarted :: mid ++ post -> ser sid = true ->
+      (forall f' r', ~ In (EvScen f' r' sid rt ScFinished) mid) ->
+      forall f' r' s' rt' x, In (EvScen f' r' s' rt' x) mid -> s' = sid /\ rt' = rt /\ is_middle x = true.
+Proof. exact ReviewP3.serial_attempt_runs_alone. Qed.
+Print Assumptions C07_serial_attempt_runs_alone.
+
+Theorem C07_serial_attempt_starts_alone :
+  forall ser c ls s tr, exec c ls = Some (s, tr) -> tagged ser ls ->
+    forall pre f r sid rt mid f2 r2 s2 rt2 post,
+      tr = pre ++ EvScen f r sid rt ScStarted :: mid ++ EvScen f2 r2 s2 rt2 ScStarted :: post -> ser s2 = true ->
+      exists f' r', In (EvScen f' r' sid rt ScFinished) mid.
+Proof. exact ReviewP3.serial_attempt_starts_alone. Qed.
+Print Assumptions C07_serial_attempt_starts_alone.
